@@ -1,15 +1,18 @@
 /-
 C04 — Checked view operations never leave the buffer or hit undefined behaviour.
 
-Layer 2 of DESIGN §7 C04 (byte-window contract) for the view model `G` of C01, plus the two
-counterexamples found on the pinned tree.  Layer 1 (arithmetic overflow freedom,
-`C04_no_overflow`) is builder `bounds`' `Emboss/Properties/C04Arith.lean`:
-  -- TODO(after merge): import Emboss.Properties.C04Arith
+Layer 2 of DESIGN §7 C04 (byte-window contract) for the view model `G` of C01.  The two defects
+found in round 1 (NullByteOrderer size, unguarded virtual-field write) are repaired in /repo
+(a39ac01, 1e1a793): the model follows the repaired code, the former counterexamples are
+regression `example`s here and corpus entries of the check.  Layer 1 (arithmetic overflow
+freedom) is builder `bounds`' `Emboss/Properties/C04Arith.lean`, restated here as
+`C04_arith_no_overflow`.
 Layer 3 (sanitized correspondence) is harness/corr/C04.py.  Real memory safety is claimed only as
 far as the model and the sanitizers reach (pointer formation, aliasing, the compiler's view of UB
 are outside both): level *partial*.
 -/
 import Emboss.Model.Window
+import Emboss.Properties.C04Arith
 namespace Emboss.View
 
 theorem Window.sub_safe {w : Window} {total : Nat} (h : w.safe total) (offset size : Nat) :
@@ -70,13 +73,14 @@ theorem C04_window_is_slice (buf : List Nat) (w : Window) (offset size : Nat) :
 
 /-! ### byte orderers: what `BitBlock<Orderer<buffer>, 8·k>` reads -/
 
-/-- With the little/big-endian orderers a `BitBlock` that is Ok reads inside the buffer. -/
-theorem C04_bitblock_reads_in_bounds (bo : ByteOrder) (hbo : bo ≠ .null) (k total : Nat) (w : Window)
+/-- A `BitBlock` that is Ok reads inside the buffer, for every byte orderer (little-endian,
+big-endian, and the null orderer of one-byte fields without a byte order).  Until fix a39ac01
+the null orderer answered `SizeInBytes() = 1` over an empty window and this failed for it
+(regression input: corpus/C04/null_order_truncated.emb, `OBS Foo 01`). -/
+theorem C04_bitblock_reads_in_bounds (bo : ByteOrder) (k total : Nat) (w : Window)
     (h : w.safe total) : ∀ i ∈ bitBlockReads bo k w, i < total := by
   intro i hi
-  unfold bitBlockReads at hi
-  have hsz : ordererSize bo w = w.len := by cases bo <;> simp_all [ordererSize]
-  rw [hsz] at hi
+  unfold bitBlockReads ordererSize at hi
   split at hi
   · rename_i hk
     rw [List.mem_range'_1] at hi
@@ -85,31 +89,66 @@ theorem C04_bitblock_reads_in_bounds (bo : ByteOrder) (hbo : bo ≠ .null) (k to
     · unfold Window.valid at hv; omega
   · cases hi
 
-/-- Counterexample (finding `asan:heap-buffer-overflow:NullByteOrderer-truncated-one-byte-field`):
-`struct Foo: 0 [+1] UInt x  1 [+1] UInt y` without a byte order gets the `Null` orderer; over a
-1-byte buffer `y()`'s storage is the empty window at offset 1, the `BitBlock` nevertheless
-reports Ok and `y().Ok()` reads the byte at index 1 of a 1-byte allocation. -/
-theorem C04_null_byte_orderer_counterexample :
-    (({ off := 0, len := 1 } : Window).sub 1 1).safe 1 ∧
-    bitBlockReads .null 1 (({ off := 0, len := 1 } : Window).sub 1 1) = [1] ∧
-    ¬ (∀ i ∈ bitBlockReads .null 1 (({ off := 0, len := 1 } : Window).sub 1 1), i < 1) := by
-  refine ⟨Or.inl (by decide), by decide, ?_⟩
-  intro h
-  exact absurd (h 1 (by decide)) (by decide)
+/-- non-vacuity, and the former counterexample as a regression test: `struct Foo: 0 [+1] UInt x
+1 [+1] UInt y` (null byte order) over a 1-byte buffer: `y()`'s storage is the empty window at
+offset 1 and the `BitBlock` is *not* Ok any more — nothing is read; over 2 bytes it reads index 1. -/
+example :
+    bitBlockReads .null 1 (({ off := 0, len := 1 } : Window).sub 1 1) = [] ∧
+    bitBlockReads .null 1 (({ off := 0, len := 2 } : Window).sub 1 1) = [1] := by decide
 
-/-! ### virtual-field writes evaluate the inverse transform before any range check -/
+/-! ### virtual-field writes: range check first, then the inverse transform -/
 
-/-- Counterexample (finding `ubsan:virtual-field-CouldWriteValue-extreme-argument`, F3 of DESIGN
-§8): for `let v = x - 10` (`x : UInt:8`) the generated `CouldWriteValue(int32_t v)` computes
-`Sum<int32_t, …>(v, 10)` before looking at `v`; `v = INT32_MAX` overflows.  Within the range the
-compiler inferred for `v` (`-10..245`) the sum cannot overflow — the hypothesis `C04_no_overflow`
-needs for writes. -/
-theorem C04_virtual_write_overflow_counterexample :
-    addI32 2147483647 10 = none ∧ ∀ v : Int, -10 ≤ v → v ≤ 245 → addI32 v 10 = some (v + 10) := by
-  refine ⟨by decide, ?_⟩
-  intro v h1 h2
-  unfold addI32
-  rw [if_pos (by omega)]
+/-- `CouldWriteValue` / `TryToWrite` of an arithmetic virtual field (`let v = x - 10`,
+`x : UInt:8`: `lo = -10`, `hi = 245`, inverse transform `v + 10`): since fix 1e1a793 the argument
+is compared with the field's inferred range *before* the inverse transform is computed, so for
+**every** argument of the accessor's value type (garbage, `INT32_MAX`, …) the addition is either
+not executed or cannot overflow, provided the transform is overflow-free on the inferred range
+itself (which is `C04_arith_no_overflow`'s subject: the range of `v + 10` is the range of `x`). -/
+theorem C04_virtual_write_checked_no_overflow (lo hi k : Int)
+    (hlo : -2147483648 ≤ lo + k) (hhi : hi + k ≤ 2147483647) (v : Int) :
+    virtWriteI32 lo hi k v = some (decide (lo ≤ v ∧ v ≤ hi)) := by
+  unfold virtWriteI32 addI32
+  by_cases h : v < lo ∨ v > hi
+  · rw [if_pos h]; congr 1; symm; apply decide_eq_false; omega
+  · rw [if_neg h, if_pos (by omega)]
+    simp only [Option.map_some]; congr 1; symm; apply decide_eq_true; omega
+
+/-- non-vacuity + the former counterexample (finding F3,
+`ubsan:virtual-field-CouldWriteValue-extreme-argument`) as a regression test: the unguarded sum
+overflows for `INT32_MAX`; the guarded one answers "not writable" without computing it. -/
+example :
+    addI32 2147483647 10 = none ∧ virtWriteI32 (-10) 245 10 2147483647 = some false ∧
+    virtWriteI32 (-10) 245 10 245 = some true := by decide
+
+/-! ### arithmetic (layer 1) -/
+
+/-- Layer 1, restated from `Emboss.Properties.C04Arith` (builder `bounds`; model
+`Emboss/Model/CppArith.lean`): for every expression whose annotated tree passes the 64-bit gate
+of `constraints.py` (and whose referenced virtual fields pass it too), with leaves holding values
+of their physical types, the generated fixed-width C++ evaluation (operands cast to
+`IntermediateT`, result cast to `ResultT`, types chosen by `_cpp_integer_type_for_range`) never
+overflows, never truncates and yields the unbounded-ℤ value the view model `G` computes with —
+or the header does not compile (`Choice` static_assert).  The types `IntermediateT/ResultT` this
+theorem reasons about (`Emboss.Bounds.opTypes`/`nodeTypes`) are compared with the ones literally
+present in every generated header by harness/corr/C04.py (`TYPES` tie). -/
+theorem C04_arith_no_overflow (ρ : Emboss.Bounds.Env) (e : Emboss.Bounds.Expr)
+    (t : Emboss.Bounds.ATree) (v : Emboss.Bounds.CVal)
+    (hann : Emboss.Bounds.annot e = some t) (hgate : Emboss.Bounds.gate t = some [])
+    (henv : Emboss.Bounds.EnvOk ρ e) (hev : Emboss.Bounds.eval ρ e = some v)
+    (hvref : Emboss.Bounds.vrefsGated e = true) :
+    Emboss.Bounds.cppEval ρ e = .ok v ∨ Emboss.Bounds.cppEval ρ e = .staticAssert :=
+  Emboss.Bounds.C04_no_overflow ρ e t v hann hgate henv hev hvref
+
+/-- non-vacuity of `C04_arith_no_overflow` on the shape seeded change C04-m2 targets:
+`0 - x` over `Int:32 x` holding `INT32_MIN`: range `-(2^31-1) .. 2^31` needs `int64_t`; the model
+picks it (`opTypes`) and the evaluation is exact. -/
+example :
+    let e : Emboss.Bounds.Expr := .bin .sub (.const 0) (.ileaf 0 .sint (some 32))
+    let ρ : Emboss.Bounds.Env := ⟨fun _ => -2147483648, fun _ => false, fun _ => 0⟩
+    (∃ t, Emboss.Bounds.annot e = some t ∧ Emboss.Bounds.gate t = some []) ∧
+      Emboss.Bounds.cppEval ρ e = .ok (.int 2147483648) ∧
+      Emboss.Bounds.opTypes e = some [(some .i64, some .i64)] := by
+  refine ⟨⟨_, rfl, by decide +kernel⟩, by decide +kernel, by decide +kernel⟩
 
 /-- non-vacuity of the window theorems: a 4-byte buffer, field at offset 2 of size 5 (clamped to
 2 bytes), then element 1 of size 1 inside it; a field at offset 9 yields an empty window. -/
